@@ -172,6 +172,14 @@ def build_behaviours(chk, universe, gens, tier):
                     break
         rest = [i for i in deep if i not in must]
         order = shallow + must + rest[:10 - len(must)]
+    if tier == "thorough":
+        # every state of depth <= 2, a seeded sample of the depth 3 ones
+        shallow = [i for i in order if len(gens[i]["actions"]) <= 2]
+        deep = [i for i in order if len(gens[i]["actions"]) > 2]
+        rng.shuffle(deep)
+        order = shallow + deep[:200]
+    chk.cov["states_generated"] = len(gens)
+    chk.cov["states_executed"] = len(order)
     for gi in order:
         gen = gens[gi]
         flags = gen["valid"]
@@ -194,12 +202,42 @@ def build_behaviours(chk, universe, gens, tier):
         actions = list(gen["actions"])
         actions.append({"a": "Vectors", "idx": refuse})
         actions.extend(probes)
+        actions.extend(update_tail(gen["reg"]))
         bid = len(behaviours)
         behaviours.append({"id": bid, "actions": actions,
                            "keyoff": (chk.seed * 131) % 1400})
         expected[bid] = {"refuse": len(refuse), "probes": len(probes),
                          "backbone": len(gen["actions"])}
     return behaviours, expected, index
+
+
+NEXT_KEY = {"P": {"c1": "k3", "c2": "k4"}, "O": {"c1": "k6"},
+            "R": {"p1": "q3", "p2": "q4"}}
+
+
+def update_tail(reg):
+    """Identity updates on either side AFTER the server has answered
+    requests in this behaviour (the abstract state does not remember the
+    order, the real code might), followed by requests under the new and
+    the replaced identities."""
+    base = {"ckey": "-", "lim": ["none"], "uri": "-", "val": "-",
+            "tam": "none", "kind": "list", "a": "Req"}
+    tail = [{"a": "ServerId", "srv": "P"}, {"a": "ServerId", "srv": "O"}]
+    after = []
+    for srv in ("P", "O", "R"):
+        for handle, key in sorted(reg[srv].items()):
+            new = NEXT_KEY[srv][handle]
+            if key != new:
+                if srv == "R":
+                    tail.append({"a": "PubReReg", "c": handle, "key": new})
+                else:
+                    tail.append({"a": "ChildId", "srv": srv, "c": handle,
+                                 "key": new})
+            proto = "pub" if srv == "R" else "ud"
+            for k in (new, key):
+                after.append(dict(base, p=proto, key=k, snd=handle,
+                                  rcp=srv, tgt=srv))
+    return tail + after
 
 
 OWNER = {"a1": "c1", "a2": "c1", "b1": "c2"}
@@ -567,7 +605,11 @@ def run(tier, seed):
         if not chk.violations:
             raise
         vlib.log(f"anti-vacuity step not completed after violations: {e}")
+    # exhaustive: the TLC model check and, per executed state, the message
+    # lattice; which states are executed is given by states_executed
     chk.cov["exhaustive"] = True
+    chk.cov["conformance_all_states_up_to_depth"] = \
+        1 if tier == "quick" else 2
     chk.cov["bitflips"] = {
         "level": "exploration",
         "what": "every single-bit flip (thorough) / seeded 2000 (quick) of "
@@ -575,8 +617,9 @@ def run(tier, seed):
         "per_message": stats["bitflips"]}
     chk.cov["rule"] = (
         "for every distinct abstract state reached by a backbone of honest "
-        "requests and identity updates (TLC breadth first, depth 2 quick / "
-        "3 thorough) TLC evaluates Valid(m) for every message of the "
+        "requests, identity updates and suspension (TLC breadth first; "
+        "quick: all states of depth <= 1 and a seeded sample of depth 2; "
+        "thorough: all of depth <= 2 and 200 of depth 3) TLC evaluates Valid(m) for every message of the "
         "lattice signing key x claimed sender x recipient x end point x "
         "kind x payload x tamper class; all refused ones (tampered "
         "variants only of otherwise valid messages) are sent to the real "
@@ -591,6 +634,6 @@ def replay(path, seed):
     with open(path) as f:
         data = json.load(f)
     rp = data["replay"]
-    chk = vlib.Check(PID, LEVEL, "quick", seed)
+    chk = vlib.Check(PID, LEVEL, "replay", seed)
     run_and_validate(chk, [rp["behaviour"]], rp["universe"], "replay")
     return chk.finish()
